@@ -42,7 +42,7 @@ PLAN = dict(
 )
 TEXT = dict(
     technique="property-based testing: generated loss-free flow graphs x generated external putter scripts x generated schedules over the real flow-graph and scheduler code "
-              "(controlled scheduler, SC+TSO) against a reference dataflow evaluation over message-id multisets, in-body concurrency counters and an idle-instant oracle for wait_for_all",
+              "(controlled scheduler, SC+TSO) against a reference dataflow evaluation over message-id multisets, in-body concurrency counters and an idle-instant oracle for wait_for_all; plus rapidcheck model-based testing of single nodes (programmable accepting / rejecting successors, push / pull edges, copy construction, reset) against an executable sequential contract",
     level_text="Exploration: generated graph topologies run on the real runtime while a generated schedule decides every interleaving of atomic operations. Every message id is re-hashed "
                "per hop; after the final wait_for_all each node's observed body invocations must equal the multiset derived from its predecessors (lost / duplicated / phantom "
                "messages), keepers are drained with try_get and may hold leftovers only in front of a refusing successor (stuck message = lost wake-up of the push/pull edge protocol), "
